@@ -100,19 +100,36 @@ def plan_walker(ctx):
             "arms": arms, "loops": loops}
 
 
-def walker_splice(ctx, plan, helpers, check_arms=None, probe=False):
+def walker_splice(ctx, plan, helpers, check_arms=None, probe=False, mode="post"):
     """Annotated walker.  helpers: list (per loop) of an_vec_* names (None while probing).
     check_arms: set of arm labels whose obligations are checked in this variant (None = all);
-    other arms start with `assume(false)` (each arm is checked in exactly one variant)."""
+    other arms start with `assume(false)` (each arm is checked in exactly one variant).
+    mode "post": the functional contract (`ensures`), recursion allowed without a measure in THIS variant;
+    mode "term": termination only -- the same text under `decreases all_nodes(node).len()`, no `ensures`, the loops
+    carry only the size invariant. The two variants are verified separately because the combined query is unstable
+    (one arm exceeded the resource limit depending on the unit's file name)."""
     fn = plan["fn"]
     ts = fn.toks
     T, N, M = plan["targets"], plan["node"], plan["acc"]
     sp = U.Splice(fn)
-    TERM = os.environ.get("VX_TERMINATION", "1") == "1"
-    if not TERM:
-        U.add_attr(sp, "#[verifier::exec_allows_no_decreases_clause]", "attr:no_decreases")
-    U.add_contract(sp, C.AST_CONTRACTS["walk_node_for_targets"].replace("targets@", T + "@").replace("node)", N + ")")
-                   + ("\n    decreases all_nodes(%s).len()" % N if TERM else ""))
+    if mode == "term":
+        U.add_contract(sp, "decreases all_nodes(%s).len()" % N, tag="ob:decreases:%s" % fn.name)
+        obligations = [("decreases:walk_node_for_targets", "termination: every recursive call is made on a node with strictly fewer nodes below it (measure all_nodes(node).len())")]
+        for k, lp in enumerate(plan["loops"]):
+            h = helpers[k]
+            sp.before_tok(ts[lp["in"] + 1], "it%d: " % k, "loop:binder")
+            sp.before_tok(ts[lp["open"]],
+                          "\n    invariant %s(it%d.seq(), it%d.seq().len() as int).len() < all_nodes(%s).len(),\n" % (h, k, k, N),
+                          "ob:inv:term.loop%d" % k)
+            # the nodes below the current element are among the nodes of the whole sequence
+            sp.after_tok(ts[lp["open"]], " proof { lemma_%s_mono(it%d.seq(), it%d.index@ + 1, it%d.seq().len() as int); } " % (h, k, k, k), "ghost:term")
+            obligations.append(("inv:term.loop%d" % k, "loop over `%s` in arm %s: the nodes of the iterated list are fewer than the nodes below the root (%s)" % (lp["expr"], lp["arm"], h)))
+        for a in plan["arms"]:
+            if check_arms is not None and a["label"] not in check_arms:
+                sp.after_tok(ts[a["open"]], " assume(false); ", "split:skip")
+        return sp, obligations
+    U.add_attr(sp, "#[verifier::exec_allows_no_decreases_clause]", "attr:no_decreases")
+    U.add_contract(sp, C.AST_CONTRACTS["walk_node_for_targets"].replace("targets@", T + "@").replace("node)", N + ")"))
     U.body_insert_start(sp,
                         "    proof { axiom_target_key_model(); }\n"
                         "    broadcast use lemma_flt_add, lemma_flt_one, lemma_flt_empty, lemma_add_assoc;\n"
@@ -120,8 +137,6 @@ def walker_splice(ctx, plan, helpers, check_arms=None, probe=False):
     goal = "%s@ =~= spec_walk(%s@, node0)" % (M, T)
     sp.before_tok(ts[plan["match"]], "assert(%s@ =~= flt(%s@, seq![node0])); " % (M, T), "ob:assert:self-node")
     obligations = [("assert:self-node", "the root node itself is kept iff its kind is wanted")]
-    if TERM:
-        obligations.append(("decreases:walk_node_for_targets", "termination: every recursive call is made on a node with strictly fewer nodes below it (measure all_nodes(node).len())"))
     for k, lp in enumerate(plan["loops"]):
         if probe:
             sp.after_tok(ts[lp["open"]], " proof { let vx_probe_%d: () = vx_it%d.seq(); } " % (k, k), "probe")
@@ -132,12 +147,8 @@ def walker_splice(ctx, plan, helpers, check_arms=None, probe=False):
                       "let ghost pre%d = %s@; " % (k, M), "ghost:pre")
         sp.before_tok(ts[lp["in"] + 1], "it%d: " % k, "loop:binder")
         sp.before_tok(ts[lp["open"]],
-                      "\n    invariant %s@ == pre%d + flt(%s@, %s(it%d.seq(), it%d.index@)),\n" % (M, k, T, h, k, k)
-                      + ("        %s(it%d.seq(), it%d.seq().len() as int).len() < all_nodes(%s).len(),\n" % (h, k, k, N) if TERM else ""),
+                      "\n    invariant %s@ == pre%d + flt(%s@, %s(it%d.seq(), it%d.index@)),\n" % (M, k, T, h, k, k),
                       "ob:inv:loop%d" % k)
-        if TERM:
-            # termination: the nodes below the current element are among the nodes of the whole sequence
-            sp.after_tok(ts[lp["open"]], " proof { lemma_%s_mono(it%d.seq(), it%d.index@ + 1, it%d.seq().len() as int); } " % (h, k, k, k), "ghost:term")
         obligations.append(("inv:loop%d" % k, "loop over `%s` in arm %s accumulates exactly the wanted nodes of the prefix (%s)" % (lp["expr"], lp["arm"], h)))
     for a in plan["arms"]:
         if probe:
@@ -153,7 +164,7 @@ def walker_splice(ctx, plan, helpers, check_arms=None, probe=False):
     return sp, obligations
 
 
-def small_fn_splices(ctx, walker_external=False, plan=None, helpers=None, check_arms=None, probe=False):
+def small_fn_splices(ctx, walker_external=False, plan=None, helpers=None, check_arms=None, probe=False, mode="post"):
     """All items of ast.rs (except `use`), with contracts; returns (list of splices, obligations)."""
     splices = []
     obligations = []
@@ -173,7 +184,7 @@ def small_fn_splices(ctx, walker_external=False, plan=None, helpers=None, check_
                     U.add_contract(sp, C.AST_CONTRACTS[it.name])
                     splices.append(sp)
                 else:
-                    sp, obs = walker_splice(ctx, plan, helpers, check_arms, probe)
+                    sp, obs = walker_splice(ctx, plan, helpers, check_arms, probe, mode)
                     splices.append(sp)
                     obligations += obs
                 continue
@@ -249,7 +260,7 @@ def _annotate_set_loops(sp, it, obligations):
         pass
 
 
-def build(ctx, check_arms=None, helpers=None, probe=False, walker_external=False, plan=None):
+def build(ctx, check_arms=None, helpers=None, probe=False, walker_external=False, plan=None, mode="post"):
     u = U.Unit("ast")
     u.raw(C.PRELUDE % {"features": "", "uses": ""}, "prelude")
     C.add_pt_module(u, ctx)
@@ -260,7 +271,7 @@ def build(ctx, check_arms=None, helpers=None, probe=False, walker_external=False
     u.raw(C.into_spec_impls(ctx), "spec:into")
     if plan is None and not walker_external:
         plan = plan_walker(ctx)
-    splices, obligations = small_fn_splices(ctx, walker_external, plan, helpers, check_arms, probe)
+    splices, obligations = small_fn_splices(ctx, walker_external, plan, helpers, check_arms, probe, mode)
     for sp in splices:
         u.add_splice(sp)
     u.raw(C.EPILOGUE, "epilogue")
